@@ -71,7 +71,7 @@ fn stun_any_type() -> impl Strategy<Value = Pay> {
 }
 
 pub fn ip_tweak() -> impl Strategy<Value = IpTweak> {
-    (prop_oneof![2 => Just(0u8), 1 => any::<u8>()], any::<u16>(), prop_oneof![2 => Just(2u8), 1 => Just(0u8), 3 => 0u8..8], prop_oneof![2 => Just(64u8), 1 => Just(1u8), 1 => Just(255u8), 1 => any::<u8>()]).prop_map(|(tos, id, flags, ttl)| IpTweak { tos, id, flags, ttl, tcp_window: None, tcp_urg: None })
+    (prop_oneof![2 => Just(0u8), 1 => any::<u8>()], any::<u16>(), prop_oneof![2 => Just(2u8), 1 => Just(0u8), 3 => 0u8..8], prop_oneof![2 => Just(64u8), 1 => Just(1u8), 1 => Just(255u8), 1 => any::<u8>()], prop_oneof![4 => Just(0u8), 2 => 1u8..=18, 1 => any::<u8>()]).prop_map(|(tos, id, flags, ttl, pad)| IpTweak { tos, id, flags, ttl, tcp_window: None, tcp_urg: None, pad })
 }
 
 /// the same plus TCP window / urgent pointer values (window: 0, 1, around the size of typical
